@@ -2398,6 +2398,8 @@ WouldBeEqualToAfterPutOrRemove(const HashtableBase & rhs, const KeyType & key, c
       else
       {
          if (rhs.GetNumItems() != (this->GetNumItems()+1)) return false;  // rhs can't be our post-insert-state unless it is exactly one larger than (this)
+         const ValueType * hisNewVal = rhs.Get(key);
+         if ((hisNewVal == NULL)||(!(*hisNewVal == *optValue))) return false;  // rhs must hold the new key, with the value we would Put() for it
          return rhs.AreKeysAndValuesASupersetOf(*this, considerOrdering);
       }
    }
